@@ -132,6 +132,27 @@ pub fn prep(args: &Args) {
         "flush" | "consolidate" => {
             let sd = dir.join("shards");
             std::fs::create_dir_all(&sd).unwrap();
+            if hist == "subset" {
+                // shard A plus shards whose records are subsets of A's: the merged shard is byte-identical to A, i.e. the
+                // consolidation writes a shard under a name that already exists
+                let (cas, files) = gen_shard_content(&mut rng, 4, 4, false);
+                let write = |cas: &[MDBCASInfo], files: &[MDBFileInfo]| {
+                    let mut m = MDBInMemoryShard::default();
+                    for c in cas {
+                        m.add_cas_block(c.clone()).unwrap();
+                    }
+                    for f in files {
+                        m.add_file_reconstruction_info(f.clone()).unwrap();
+                    }
+                    m.write_to_directory(&sd).unwrap();
+                };
+                write(&cas, &files);
+                write(&cas[..2], &files[..1]);
+                if rng.chance(1, 2) {
+                    write(&cas[2..], &files[2..]);
+                }
+                return;
+            }
             let n = match (op.as_str(), hist.as_str()) {
                 ("flush", "empty") => 0,
                 ("consolidate", "empty") => 2,
